@@ -1,10 +1,15 @@
 // unit `gamma` — C05 (and the gamma part of C03)
 use vstd::prelude::*;
+use vstd::std_specs::iter::IteratorSpec;
 verus! {
 //@include spec/prelude.rs
-broadcast use {axiom_string_ext, axiom_str_of};
+broadcast use {axiom_string_ext, axiom_str_of, axiom_vec_ext, axiom_vec_of, axiom_display_string, axiom_display_str};
+//@include spec/indexset.rs
 //@include units/fol_types.inc
 //@include spec/sem.rs
+//@include spec/quant_lemmas.rs
+//@include spec/fol_spec.rs
+//@include units/fol_lib.inc
 //@include spec/gamma_lemmas.rs
 
 pub trait Apply: Sized {
